@@ -34,6 +34,10 @@ class C02(OptCheck):
                 yield case(d, [], [list(form)], kind="parsel"), "typed"
         for _ in range(300 if tier == "quick" else 3000):
             v = rng.randint(-10**rng.randint(1, 18), 10**rng.randint(1, 18))
-            yield case(d, [], [["--out=%d" % v, "--log=%d" % rng.randint(0, 10**9)]], kind="parsel"), "typed"
+            multi = []
+            for _ in range(rng.randint(0, 3)):
+                m = rng.randint(-10**rng.randint(1, 9), 10**rng.randint(1, 9))
+                multi += rng.choice([["--inc=%d" % m], ["-i=%d" % m]] + ([["--inc", "%d" % m], ["-i", "%d" % m]] if m >= 0 else []))
+            yield case(d, [], [["--out=%d" % v, "--log=%d" % rng.randint(0, 10**9)] + multi], kind="parsel"), "typed"
 
 CHECK = C02
